@@ -54,3 +54,35 @@ func ZZ_C05_Interference() {
 	// consistency re-established: the next cycle starts from a consistent state again
 	zzv.Assert(zzv.FilePeek(e.pwmPath) == c.applyPwmMapping(c.findClosestDistinctTarget(*c.lastSetPwm)), "I5.consistent_state_reestablished")
 }
+
+//zzv:bound H = the same fan driven through three consecutive real cycles from a consistent state, a third party rewriting the PWM value before any subset of them with independently chosen values (so "the same foreign value again" and "the same value after an undisturbed cycle" are inside): every disturbed cycle is counted, no undisturbed cycle is, and the device ends every cycle at what the target dictates
+
+// H: the counter clause over histories. The inductive harness above starts every cycle from a state
+// built from the fields the controller has today; whatever else a changed controller remembers
+// between cycles is only reachable by actually running consecutive cycles.
+func ZZ_C05_History() {
+	loop := zzv.Choice("loop", 2)
+	e := zzNewFan(zzKindHwmon, zzv.Bool("neverStop"), true, true, true, 0, 1, 1000)
+	zzHwmonLimits(e)
+	e.zzController(zzLoop(loop), zzv.Int("curveValue"), 2)
+	c := e.c
+	l := zzRange("lastSetPwm", 0, 255)
+	c.lastSetPwm = &l
+	zzv.FilePut(e.enablePath, true, 1)
+	tags := []string{"1", "2", "3"}
+	for _, tag := range tags {
+		expected := c.applyPwmMapping(c.findClosestDistinctTarget(*c.lastSetPwm))
+		tp := zzRange("thirdPartyPwm"+tag, 0, 255)
+		dev := zzv.IteInt(zzv.Bool("thirdPartyTouchesPwm"+tag), tp, expected)
+		zzv.FilePut(e.pwmPath, true, dev)
+		before := c.stats.UnexpectedPwmValueCount
+		if c.UpdateFanSpeed() != nil {
+			return
+		}
+		after := c.stats.UnexpectedPwmValueCount
+		zzv.Record("count"+tag, after)
+		zzv.Assert(zzv.Implies(dev != expected, after > before), "H3.every_changed_pwm_is_counted")
+		zzv.Assert(zzv.Implies(dev == expected, after == before), "H4.no_count_without_pwm_change")
+		zzv.Assert(zzv.FilePeek(e.pwmPath) == c.applyPwmMapping(c.findClosestDistinctTarget(*c.lastSetPwm)), "H2.pwm_is_what_the_target_dictates")
+	}
+}
